@@ -354,6 +354,21 @@ func runNum(seed int64, n int, dir string) {
 				a, b = g.tieOperand(p18, 600), big.NewInt(1)
 			case "quo": // a*10^72/b with b = 10^72 raw
 				a, b = g.tieOperand(p36, 600), new(big.Int).Set(p72)
+				if g.Intn(2) == 0 {
+					// quotient whose digits 37..72 are exactly 5000…0 followed by non-zero digits: a = odd·5·10^35·10^j, b = 10^36 ± k
+					// (a/b = a·(1 ∓ k·10^-36 + k²·10^-72 …): the truncated-at-72 quotient is an exact tie, the exact quotient is not)
+					odd := new(big.Int).Add(new(big.Int).Lsh(g.randBits(1+g.Intn(40)), 1), big.NewInt(1))
+					a = new(big.Int).Mul(odd, new(big.Int).Mul(big.NewInt(5), pow10(35)))
+					k := int64(1 + 2*g.Intn(5))
+					b = new(big.Int).Sub(p36, big.NewInt(k))
+					if g.Intn(3) == 0 {
+						b = new(big.Int).Add(p36, big.NewInt(k))
+					}
+					if g.Intn(2) == 0 {
+						a.Neg(a)
+					}
+					o.Count("directed.quo-tie-beyond-72")
+				}
 			case "quoRaw":
 				a, b = g.tieOperand(p36, 600), big.NewInt(1)
 				a.Quo(a, p36) // a*10^36/1 then chop: use small a with remainder classes via b
